@@ -37,7 +37,7 @@ BOUNDS = {
     "quick": {"refcache_depth": 4, "others": "fixpoint"},
     "thorough": {"refcache_depth": 5, "others": "fixpoint"},
 }
-CAP_S = {"quick": 240, "thorough": 3000}
+CAP_S = {"quick": 400, "thorough": 3000}
 
 ET = gtirb.Edge.Type
 
